@@ -358,7 +358,10 @@ pub fn run(ctx: &Ctx) -> Result<(), String> {
     let wiring_n = AtomicU64::new(0);
     let failed: Mutex<Option<String>> = Mutex::new(None);
     {
-        let al = c09::alphabet();
+        let mut al = c09::alphabet();
+        // the periodic hand-off to the reporter queue as an event: nothing drains the queue here, so
+        // it fills up (capacity 4) and the hand-off must stay non-blocking
+        al.push(Ev::Handoff);
         let lt_pk = crypto::public_key(&crate::inproc::DEFAULT_SEED);
         for (client_stats, depth) in [(false, ctx.tier.pick(4usize, 5)), (true, ctx.tier.pick(3usize, 4))] {
             for bs in [1u8, 3] {
@@ -380,6 +383,12 @@ pub fn run(ctx: &Ctx) -> Result<(), String> {
                     if obs.panic.is_some() {
                         return; // C08/C09's concern
                     }
+                    // a hand-off clears a per-client recorder (the snapshot went to the queue): the
+                    // totals comparison below applies to histories without a hand-off; with hand-offs
+                    // the oracle is that every call returned (watchdog) and the traffic was served
+                    if h.iter().any(|e| *e == Ev::Handoff) {
+                        return;
+                    }
                     let st = obs.stats.clone().unwrap();
                     let sent_c = obs.sent.iter().filter(|s| s.version == Some(rtref::Version::Classic)).count() as u64;
                     let sent_i = obs.sent.iter().filter(|s| s.version == Some(rtref::Version::Ietf13)).count() as u64;
@@ -394,6 +403,27 @@ pub fn run(ctx: &Ctx) -> Result<(), String> {
                     }
                 });
             }
+        }
+    }
+    // hand-off sequences well beyond the queue capacity, with traffic in between (per-client recorder)
+    {
+        let lt_pk = crypto::public_key(&crate::inproc::DEFAULT_SEED);
+        let cfg = SrvCfg { batch_size: 2, client_stats: true, ..Default::default() };
+        let mut h = vec![];
+        for k in 0..12 {
+            h.push(Ev::Req(k % 2, if k % 3 == 0 { rtref::Version::Ietf13 } else { rtref::Version::Classic }));
+            h.push(Ev::Step);
+            h.push(Ev::Handoff);
+        }
+        let mut srv = Srv::new(&cfg)?;
+        let mut obs = c09::run_events(&mut srv, &h, 2, false);
+        let vs = c09::judge(&mut obs, &lt_pk, false);
+        wiring_n.fetch_add(1, Relaxed);
+        for (clause, class, msg) in vs {
+            ctx.violation(&clause, "server-wiring", &format!("handoff-sequence/{}", class), json!({"kind":"events","history":c09::hist_json(&cfg, &h),"message":msg}));
+        }
+        if srv.queue.len() > 4 {
+            ctx.violation("queue-exceeds-capacity", "server-wiring", "handoff-sequence", json!({"kind":"events","history":c09::hist_json(&cfg, &h),"queue_len":srv.queue.len()}));
         }
     }
     if let Some(e) = failed.lock().unwrap().take() {
@@ -424,7 +454,7 @@ pub fn run(ctx: &Ctx) -> Result<(), String> {
     ctx.cov("sampled_evaluations", json!(sampled));
     ctx.cov("exhaustive", json!(true));
     ctx.cov("bound", json!({"recorder_len": len1, "recorder_ops": 25, "limits": [1, 2], "merge_len": len2, "merge_events": 15, "wiring_depth": ctx.tier.pick("4 (aggregated) / 3 (per-client)", "5 / 4")}));
-    ctx.cov("rule", json!(format!("(1) all sequences of length <= {} over 8 recording operations x 3 addresses + clear on the real PerClientStats (limit 1 and 2) and AggregatedStats, with a step oracle after every operation: the observable state (per-address counters, bytes, overflow count) changed by exactly the event's own counter +1 (bytes + argument) OR overflow +1; tracked <= limit; every getter equals the sum over rows; iter() == rows; aggregated totals equal per-client totals while overflow is 0. states = distinct canonical recorder states reached. (2) all sequences of {} events over {{record(w,op,addr) x12, snapshot(w0), snapshot(w1), receive}} + final receive through the real iter->force_push->clear hand-off, the real ArrayQueue (capacity 4) and the real Reporter::receive_client_stats, against a model queue that drops the oldest snapshot when full: reporter per-address sums == sums of popped snapshots. (3) C09 event histories on real Servers (aggregated and per-client recorder): recorded valid/classic/ietf/invalid/responses/bytes == datagrams actually sent and received.", len1, len2)));
+    ctx.cov("rule", json!(format!("(1) all sequences of length <= {} over 8 recording operations x 3 addresses + clear on the real PerClientStats (limit 1 and 2) and AggregatedStats, with a step oracle after every operation: the observable state (per-address counters, bytes, overflow count) changed by exactly the event's own counter +1 (bytes + argument) OR overflow +1; tracked <= limit; every getter equals the sum over rows; iter() == rows; aggregated totals equal per-client totals while overflow is 0. states = distinct canonical recorder states reached. (2) all sequences of {} events over {{record(w,op,addr) x12, snapshot(w0), snapshot(w1), receive}} + final receive through the real iter->force_push->clear hand-off, the real ArrayQueue (capacity 4) and the real Reporter::receive_client_stats, against a model queue that drops the oldest snapshot when full: reporter per-address sums == sums of popped snapshots. (3) C09 event histories extended with the periodic hand-off event on real Servers (aggregated and per-client recorder): recorded valid/classic/ietf/invalid/responses/bytes == datagrams actually sent and received (histories without hand-off); every hand-off returns even when the undrained queue is full (wedge watchdog), traffic still served.", len1, len2)));
     ctx.sample(json!({"kind":"recorder","limit":1,"names":["classic_req@a0","rfc_resp@a1","clear","health@a1"]}));
     ctx.sample(json!({"kind":"merge","events":["rec:w0:classic_req:a0","snap:w0","rec:w1:classic_req:a0","snap:w1","receive"]}));
     ctx.assume("part 2 reuses one Reporter per chunk of histories (Reporter::new allocates a 5M-entry map); the model is cumulative, so the oracle stays exact");
